@@ -18,8 +18,8 @@
     The model of the code BEFORE repair 92063b3 refutes the statement
     ([print_parse_refuted_pinned], D11: `Display for XmlDeclarationAttList` printed nothing). *)
 From Coq Require Import List NArith Bool.
-From XmlRs Require Import Base.CPred Model.Peg Model.ParseActions Model.Info Model.Display
-     Proofs.DisplayEq.
+From XmlRs Require Import Base.CPred Model.Peg Gen.XmlcharGen Gen.GrammarXmlGen Model.ParseActions Model.Info Model.Display
+     Proofs.DisplayEq Proofs.PegLemmas Proofs.DisplayLex Proofs.DisplayElem Proofs.DisplayRun.
 Import ListNotations.
 
 Theorem doc_eq_implies_impl_eq : forall a b, doc_eq a b -> impl_eq a b = true.
@@ -62,5 +62,101 @@ Proof.
   unfold d11_repaired. eexists. eexists. split; [reflexivity|]. split; reflexivity.
 Qed.
 
+(** ** the rungs proved so far (DESIGN 5.1 / 5.4).
+
+    Direction "print, then parse" (for EVERY value that satisfies the stated lexical invariant and
+    every continuation that satisfies the follow condition; [yields e s v r] = for all sufficiently
+    large fuel, hence at the fuel [run] uses, [e] on [s] consumes up to [r] and its tree means [v]):
+
+      rung 1, lexical:  Name, NCName, QName, Eq, Reference (entity / decimal / hexadecimal),
+                        AttValue (both quotes), CharData, CDSect, PI, Comment
+      rung 2:           Attribute (incl. xmlns / xmlns:p names), the attribute list of a tag,
+                        STag / ETag / EmptyElemTag, content, element -- by induction on the element
+                        tree, any depth and width -- TOGETHER WITH the infoset construction:
+                        parsing the print of an element and building it gives the element back.
+
+    MISSING for the full statement:
+      rung 3 "print, then parse": prolog, XML declaration, Misc, doctypedecl and the declarations
+              the printer writes (ENTITY, NOTATION, ATTLIST, PI); document;
+      the converse direction of every rung ("what the parser returns satisfies the invariant":
+              [item_wf] for the output of [build_document]), which turns the hypothesis of
+              [print_parse_partial_element] into a consequence of [from_raw s = OOk (r, d)].
+    Until then the hypothesis is checked at run time on every accepted document of the generated
+    streams by the round-trip oracle of checks/C04.py (a test, labelled so). *)
+Theorem print_parse_partial_name : forall n r : str, name_ok n -> stops (eval is_name_char) r ->
+  parses G_xml (NT nt_name) (n ++ r) (TStr n) r.
+Proof. exact parses_name. Qed.
+
+Theorem print_parse_partial_qname : forall (q : qname) (r : str), qname_ok q -> stops (eval is_name_char) r ->
+  parses G_xml (NT nt_qname) (d_qname q ++ r) (tree_qname q) r.
+Proof. exact parses_qname. Qed.
+
+Theorem print_parse_partial_reference : forall (x : reference) (r : str), reference_ok x ->
+  yields (NT nt_reference) (d_reference x ++ r) (VReference x) r.
+Proof. exact yields_reference. Qed.
+
+Theorem print_parse_partial_att_value : forall (q : N) (l : list att_value) (r : str), q = 34%N \/ q = 39%N ->
+  av_ok q false l -> yields (NT nt_att_value) (q :: d_av l ++ q :: r) (VList (map VAttValue l)) r.
+Proof. exact yields_att_value. Qed.
+
+Theorem print_parse_partial_char_data : forall t r : str, text_ok t -> stops (eval (is_char_except [60;38]%N)) r ->
+  parses G_xml (NT nt_char_data) (t ++ r) (TStr t) r.
+Proof. exact parses_char_data. Qed.
+
+Theorem print_parse_partial_cdsect : forall d r : str, cdata_ok d ->
+  yields (NT nt_cdsect) ([60;33;91;67;68;65;84;65;91]%N ++ d ++ [93;93;62]%N ++ r) (VCData d) r.
+Proof. exact yields_cdsect. Qed.
+
+Theorem print_parse_partial_pi : forall (p : ppi) (r : str), pi_ok p -> yields (NT nt_pi) (d_ppi p ++ r) (VPI p) r.
+Proof. exact yields_pi. Qed.
+
+Theorem print_parse_partial_comment : forall c r : str, comment_ok c ->
+  yields (NT nt_comment) ([60;33;45;45]%N ++ c ++ [45;45;62]%N ++ r) (VComment c) r.
+Proof. exact yields_comment. Qed.
+
+Theorem print_parse_partial_attribute : forall ents ext (a : attr) (r : str), attr_wf ents ext a ->
+  yields (NT nt_attribute) (d_attr a ++ r) (VAttribute (un_attr a)) r
+  /\ build_attr ents ext (un_attr a) = IOk a.
+Proof. exact attribute_rt. Qed.
+
+(** rung 2, at the entry point xml_parser::element: the compact print of a well-formed element
+    tree is parsed completely (whatever follows) and builds back to the same tree *)
+Theorem print_parse_partial_element : forall ents ext (i : item) (r : str),
+  is_element i = true -> item_wf ents ext i ->
+  exists e, parse_element (d_item false i ++ r) = POk (e, r) /\ build_element ents ext e = IOk i.
+Proof. exact element_print_parse. Qed.
+
+(** the invariant is satisfiable by non-trivial values: a prefixed element with an attribute whose value
+    has a text piece and an entity reference, a namespace declaration whose value is a quotation mark,
+    text, an empty child element, a hexadecimal character reference and a PI *)
+Example item_wf_nontrivial :
+  item_wf [] false
+    (ItElement [97] (Some [112])
+       [Attr [120] None [XaText [49]; XaEntity (builtin_entity [97;109;112] [38])];
+        Attr [112] (Some s_xmlns) [XaText [34]]]
+       [ItText [116]; ItElement [98] None [] []; ItCharRef [32] [50;48] Hex; ItPI (PI [113] (Some [114]))]).
+Proof.
+  cbn [item_wf children_wf leaf_wf mk_qname qname_ok].
+  split; [split; split; reflexivity|].
+  split.
+  { constructor; [|constructor; [|constructor]].
+    - split.
+      + unfold attr_name_wf. cbn. split; [split; reflexivity|]. intros rest. reflexivity.
+      + split; [cbn; auto|]. cbn [xa_values].
+        constructor; [split; [discriminate|reflexivity]|constructor; [|constructor]].
+        split; [reflexivity|]. vm_compute. reflexivity.
+    - split.
+      + unfold attr_name_wf. cbn. split; reflexivity.
+      + split; [cbn; auto|]. constructor; [|constructor]. split; [discriminate|reflexivity]. }
+  split; [cbn; auto|].
+  split; [reflexivity|]. split; [discriminate|]. split; [split; reflexivity|].
+  split; [repeat split; try reflexivity; constructor|].
+  split; [split; [split; [discriminate|reflexivity]|eexists; split; reflexivity]|].
+  split; [|exact I]. split; [split; reflexivity|]. repeat split; reflexivity.
+Qed.
+
 Print Assumptions doc_eq_implies_impl_eq.
+Print Assumptions print_parse_partial_element.
+Print Assumptions print_parse_partial_attribute.
+Print Assumptions print_parse_partial_comment.
 Print Assumptions print_parse_refuted_pinned.
